@@ -62,8 +62,12 @@ elif op == "mol2-roundtrip":
     m.connect(0, 1, btype=ml.BondType.Double)
     m.connect(2, 1, btype=ml.BondType.Aromatic)
     m.connect(0, 3)
-    for cls in (ml.Molecule, ml.Structure):
+    keep = []
+    for cls, shared in ((ml.Molecule, False), (ml.Structure, False), (ml.Molecule, True), (ml.Structure, True)):
         src = cls(m)
+        if shared:
+            # history: some atoms of the molecule were also handed to another (non-copying) container, which re-points their parent
+            keep.append(ml.Promolecule(src.atoms[1:3]))
         try:
             txt = src.dumps_mol2()
             r = cls.loads_mol2(txt)
@@ -78,6 +82,19 @@ elif op == "mol2-roundtrip":
             bad.append(f"{cls.__name__}: bond list differs")
         if r.dumps_mol2() != txt:
             bad.append(f"{cls.__name__}: written text is not a fixed point")
+elif op == "mol2-empty":
+    for cls in (ml.Molecule, ml.Structure):
+        src = cls(name="nothing")
+        try:
+            txt = src.dumps_mol2()
+        except BaseException:
+            continue
+        try:
+            r = cls.loads_mol2(txt)
+            if r.n_atoms != 0 or r.n_bonds != 0 or r.name != "nothing" or r.coords.shape != (0, 3):
+                bad.append(f"{cls.__name__} without atoms read back as {r.n_atoms} atoms / {r.n_bonds} bonds / name {r.name!r} / coords {r.coords.shape}")
+        except BaseException as ex:
+            bad.append(f"{cls.__name__} without atoms: molli cannot read its own mol2 text: {type(ex).__name__}: {str(ex)[:70]}")
 else:
     print("unknown op")
     sys.exit(1)
